@@ -26,9 +26,11 @@ class TorchProxy:
     """the module's `torch` with linalg.matrix_exp replaced by a recording stub
     (works for the real torch and for symtorch alike)"""
 
-    def __init__(self, real, matrix_exp):
+    def __init__(self, real, matrix_exp, scalar_exp=None):
         self._real = real
         self.linalg = SimpleNamespace(matrix_exp=matrix_exp)
+        if scalar_exp is not None:
+            self.exp = scalar_exp
 
     def __getattr__(self, name):
         return getattr(self._real, name)
@@ -70,6 +72,13 @@ def honesty(dim, max_k, hermitian):
             exps.append(e)
             return e
 
+        def fake_scalar_exp(t):
+            # an implementation may exponentiate a 1x1 projected matrix with the scalar function:
+            # same stub, so the returned-vector clause below applies to it as well
+            if getattr(t, "ndim", 0) != 0:
+                return saved[0].exp(t)
+            return fake_matrix_exp(t.reshape(1, 1))[0, 0]
+
         captured = {}
         real_impl = ke.krylov_exp_impl
 
@@ -78,7 +87,7 @@ def honesty(dim, max_k, hermitian):
             return captured["res"]
 
         saved = (ke.torch, ke.krylov_exp_impl)
-        ke.torch = TorchProxy(saved[0], fake_matrix_exp)
+        ke.torch = TorchProxy(saved[0], fake_matrix_exp, fake_scalar_exp)
         ke.krylov_exp_impl = spy_impl
         raised = False
         out = None
@@ -130,6 +139,9 @@ def honesty(dim, max_k, hermitian):
         if stop is not None:
             j, why, ei = stop
             env.check(res.iteration_count == j + 1, "iteration count")
+            if ei >= len(exps):
+                env.fail("the returned vector is formed from the exponential of the projected matrix (none was computed for the final iteration)")
+                return
             E = exps[ei]
             m = j + 1 if why == "happy" else j + 2
             col = 0 if not env.mutant("wrong_column") else (1 if E.shape[1] > 1 else 0)
